@@ -84,14 +84,11 @@ Definition fconv (k : fid) (x : sf) : sf :=
 Definition fzero : sf := S754_zero false.
 Definition fone (k : fid) : sf := f_of_Z k 1.
 
-(* integer value of an integer-valued finite float; truncation toward zero otherwise *)
-Definition f_trunc (x : sf) : option Z :=
-  match x with
-  | S754_zero _ => Some 0
-  | S754_finite s m e =>
-      Some (cond_Zopp s (if 0 <=? e then Zpos m * 2 ^ e else Z.quot (Zpos m) (2 ^ (- e))))
-  | _ => None
-  end.
+(* C cast float -> integer of a finite float: truncation toward zero (Flocq Btrunc); None for
+   NaN / infinities (and for a datum that is not a valid float of format k) *)
+Definition f_trunc (k : fid) (x : sf) : option Z :=
+  let b := sf2b k x in
+  if is_finite b then Some (Btrunc b) else None.
 
 (* np.maximum / np.minimum (and np.max / np.min of a two-element list): NaN propagates *)
 Definition fmaximum k (a b : sf) : sf :=
@@ -199,7 +196,7 @@ Definition range_scale_si (tout : ity) (in_min in_max : num) (nan_chk : bool) : 
     else
       let nan_fill_f := fdiv K32 (fneg inter32) slope32 in
       let nan_fill_i := frint K32 nan_fill_f in
-      let fits x := match f_trunc x with Some z => in_ity tout z | None => false end in
+      let fits x := match f_trunc K32 x with Some z => in_ity tout z | None => false end in
       if fits nan_fill_i then Ok (mkScaling slope32 inter32 false)
       else
         (* the test cast np.array(nan_fill_i, dtype=out_dtype) was out of range: recorded *)
@@ -318,12 +315,32 @@ Record wout := mkWout {
   o_badcast : bool               (* some value handed to the final cast was NaN, infinite or outside the type *)
 }.
 
-(* final astype(out_dtype) of a float; (value, bad) *)
-Definition cast_to_int (t : ity) (x : sf) : Z * bool :=
-  match f_trunc x with
+(* final astype(out_dtype) of a float of format k; (value, bad) *)
+Definition cast_to_int (k : fid) (t : ity) (x : sf) : Z * bool :=
+  match f_trunc k x with
   | Some z => if in_ity t z then (z, false) else (wrap t z, true)
   | None => (imin t, true)        (* x86 "integer indefinite"; flagged, never compared *)
   end.
+
+(* one element through _write_data in the working format w: scale, rint, clip, nan fill; the
+   result is the float handed to astype(out_dtype) *)
+Definition elem_f (w : fid) (sl it q_mn q_mx : sf) (nan_fill : option sf) (x : sf) : sf :=
+  let c := fclip w (frint w (scale_w w sl it x)) q_mn q_mx in
+  match nan_fill with
+  | Some n => if is_nan_sf c then n else c
+  | None => c
+  end.
+
+(* array_to_file lines 672-706: swap for a negative slope, intersect with the shared range,
+   and (fix 104ec932) collapse onto the nearest safe value when the scaled range lies wholly
+   outside the safe range *)
+Definition post_bounds_f (w : fid) (p_mn p_mx both_mn both_mx : sf) : sf * sf :=
+  let '(p_mn, p_mx) := if fgt w p_mn p_mx then (p_mx, p_mn) else (p_mn, p_mx) in
+  let q_mn := fmaximum w p_mn both_mn in
+  let q_mx := fminimum w p_mx both_mx in
+  if flt w q_mx q_mn
+  then (if flt w q_mx both_mn then (both_mn, both_mn) else (both_mx, both_mx))
+  else (q_mn, q_mx).
 
 (* array_to_file(data, fileobj, out_dtype, intercept=inter, divslope=slope, mn, mx, nan2zero)
    for integer out_dtype; pre = (mn, mx) pre-scale thresholds when given *)
@@ -353,15 +370,10 @@ Definition array_to_file (d : indata) (tout : ity) (slope inter : sf) (sk ik : f
             let sl := fconv w slope in let it := fconv w inter in
             let post x := frint w (scale_w w sl it x) in
             let p_mn := post (num_to w e_mn) in let p_mx := post (num_to w e_mx) in
-            let '(p_mn, p_mx) := if fgt w p_mn p_mx then (p_mx, p_mn) else (p_mn, p_mx) in
             do '(bmn, bmx) <- sr_k w tout;
             let both_mn := f_of_Z w bmn in let both_mx := f_of_Z w bmx in
-            let q_mn := fmaximum w p_mn both_mn in
-            let q_mx := fminimum w p_mx both_mx in
-            let '(q_mn, q_mx) := if flt w q_mx q_mn
-                                 then (if flt w q_mx both_mn then (both_mn, both_mn) else (both_mx, both_mx))
-                                 else (q_mn, q_mx) in
-            let el x := cast_to_int tout (fclip w (frint w (scale_w w sl it (f_of_Z w x))) q_mn q_mx) in
+            let '(q_mn, q_mx) := post_bounds_f w p_mn p_mx both_mn both_mx in
+            let el x := cast_to_int w tout (elem_f w sl it q_mn q_mx None (f_of_Z w x)) in
             let rs := map el xs in
             Ok (mkWout (map fst rs) (existsb snd rs))
       | InF k xs =>
@@ -374,7 +386,6 @@ Definition array_to_file (d : indata) (tout : ity) (slope inter : sf) (sk ik : f
           let post x := frint w (scale_w w sl it x) in
           let p_mn := post (num_to w e_mn) in let p_mx := post (num_to w e_mx) in
           let nan_fill := post fzero in
-          let '(p_mn, p_mx) := if fgt w p_mn p_mx then (p_mx, p_mn) else (p_mn, p_mx) in
           do '(bmn, bmx) <- sr_k w tout;
           let both_mn := f_of_Z w bmn in let both_mx := f_of_Z w bmx in
           do nan_fill <-
@@ -387,14 +398,9 @@ Definition array_to_file (d : indata) (tout : ity) (slope inter : sf) (sk ik : f
                then Ok (fclip w nan_fill both_mn both_mx)
                else Err EValueNanFill
              else Ok nan_fill);
-          let q_mn := fmaximum w p_mn both_mn in
-          let q_mx := fminimum w p_mx both_mx in
-          let '(q_mn, q_mx) := if flt w q_mx q_mn
-                               then (if flt w q_mx both_mn then (both_mn, both_mn) else (both_mx, both_mx))
-                               else (q_mn, q_mx) in
+          let '(q_mn, q_mx) := post_bounds_f w p_mn p_mx both_mn both_mx in
           let el x :=
-            let c := fclip w (frint w (scale_w w sl it (fconv w x))) q_mn q_mx in
-            cast_to_int tout (if nan2zero && is_nan_sf c then nan_fill else c) in
+            cast_to_int w tout (elem_f w sl it q_mn q_mx (if nan2zero then Some nan_fill else None) (fconv w x)) in
           let rs := map el xs in
           Ok (mkWout (map fst rs) (existsb snd rs))
       end.
